@@ -81,6 +81,13 @@ static Result judge_float(int width, uint64_t pat) {
   memset(out, 0xC5, sizeof out);
   w = width == 2 ? cbor_encode_half(u2f((uint32_t)want_bits), out, sizeof out) : width == 4 ? cbor_encode_single(u2f((uint32_t)pat), out, sizeof out) : cbor_encode_double(u2d(pat), out, sizeof out);
   if (w != n || memcmp(out, canon, n) != 0) return fail("cbor_encode_* on the original pattern wrote " + vh::hex(out, w) + ", expected " + vh::hex(canon, n));
+  if (uint8_t* hb = vh::huge_buffer()) {   // buffer sizes that do not fit an int / a uint32_t
+    size_t claim = vh::kHugeClaims[(pat ^ (pat >> 17) ^ (uint64_t)width) % 7];
+    memset(hb, 0xC5, 16);
+    w = width == 2 ? cbor_encode_half(u2f((uint32_t)want_bits), hb, claim) : width == 4 ? cbor_encode_single(u2f((uint32_t)pat), hb, claim) : cbor_encode_double(u2d(pat), hb, claim);
+    vh::counters["huge_buffer_calls"]++;
+    if (w != n || memcmp(hb, canon, n) != 0 || hb[n] != 0xC5) return fail("cbor_encode_* with a buffer of " + std::to_string(claim) + " bytes returned " + std::to_string(w) + " / wrote " + vh::hex(hb, 10) + ", expected " + vh::hex(canon, n));
+  }
   cbor_item_t* b = width == 2 ? cbor_build_float2(u2f((uint32_t)want_bits)) : width == 4 ? cbor_build_float4(u2f((uint32_t)pat)) : cbor_build_float8(u2d(pat));
   if (!b) return fail("builder failed");
   memset(out, 0xC5, sizeof out); w = cbor_serialize(b, out, sizeof out); cbor_decref(&b);
